@@ -709,7 +709,8 @@ class RidgeWorld:
     def lanes(self):
         """The same configuration under different task schedules must give the same
         numbers (when the folds do not depend on the ambient RNG)."""
-        names = sorted(self.results)
+        # (e9 is the unrelated earlier estimator with other fold parameters, not a lane)
+        names = sorted(n for n in self.results if n != "e9")
         if len(names) < 2:
             return
         a = self.results[names[0]]
